@@ -292,7 +292,7 @@ func init() {
 		Monitors:        func() []h.Monitor { return []h.Monitor{NewDecisions()} },
 		Bound: func(tier string) int {
 			if tier == "thorough" {
-				return 2
+				return 3 // K = 3 completes in under a minute (1.2 M executions)
 			}
 			return 1
 		},
